@@ -37,7 +37,9 @@ def evaluate(pid: str, tier: str = "quick", root: str | None = None):
         if os.environ.get("SA_DEBUG"):
             traceback.print_exc(file=sys.stderr)
     if spec is not None and not errors:
-        checked = [o for o in obs if o.status in ("ok", "violation")]
+        # floors are counted on the domain a rule quantifies over: every site the rule matched,
+        # whether it could decide it or not (an undecidable site is listed as unresolved)
+        checked = [o for o in obs if o.status in ("ok", "violation", "unresolved")]
         for prefix, floor in spec.floors.items():
             n = sum(1 for o in checked if o.rule.startswith(prefix))
             if n < floor:
